@@ -84,6 +84,7 @@ def alphabet(cfg: dict) -> list:
     if v is None:
         evs.append(["line", [0, 255, 3, 0, 2, cfg["reply"]]])
         evs.append(["line", [0, 255, 0, 0, 18, cfg["reply"]]])
+        evs.append(["line", [0, 255, 3, 0, 2, "junk"]])
     return evs
 
 
